@@ -175,29 +175,53 @@ structure Conn (D S R Q : Type) where
   session : S
   cursors : List (Cur R Q)
 
-/-- `DESCRIBE <sql>` on the engine: new engine state and either rows or an error; `descSql` builds the text -/
+/-- `DESCRIBE <sql>` (with the bound parameters of server-side paramstyles) on the engine: new engine state and
+    either rows or an error -/
 structure Engine (D R Q : Type) where
-  describe : D → Option Q → D × Option R
+  describe : D → Option Q → Option Q → D × Option R
 
-/-- `cursor.description` on cursor `i`: a throw-away cursor executes `DESCRIBE <last sql>`; its fields die with it -/
+/-- `cursor.description` on cursor `i`: a throw-away cursor executes `DESCRIBE <last sql>` with the last parameters;
+    its fields die with it.  Nothing else of the cursor (or of any earlier execution) is consulted. -/
 def description {D S R Q} (e : Engine D R Q) (c : Conn D S R Q) (i : Nat) : Conn D S R Q × Option R :=
   match c.cursors[i]? with
   | none => (c, none)
   | some cur =>
-    let r := e.describe c.duck cur.lastSql
+    let r := e.describe c.duck cur.lastSql cur.lastParams
     -- the temporary cursor `tmp` gets result/rowcount/lastSql; it is not in `c.cursors` and is dropped
     ({ c with duck := r.1 }, r.2)
 
-/-- `cursor.describe(q)` on cursor `i`: `self.execute("DESCRIBE q")` on the cursor itself, then `fetchall()` -/
-def describe {D S R Q} (e : Engine D R Q) (descOf : Q → Q) (c : Conn D S R Q) (i : Nat) (q : Q) : Conn D S R Q × Option R :=
+/-- `cursor.describe(q, params)` on cursor `i`: `self.execute("DESCRIBE q", params)` on the cursor itself, then `fetchall()` -/
+def describe {D S R Q} (e : Engine D R Q) (descOf : Q → Q) (c : Conn D S R Q) (i : Nat) (q : Q) (params : Option Q) :
+    Conn D S R Q × Option R :=
   match c.cursors[i]? with
   | none => (c, none)
   | some cur =>
-    let r := e.describe c.duck (some q)
+    let r := e.describe c.duck (some q) params
     let cur' : Cur R Q := match r.2 with
       | some rows => { cur with result := some rows, fetchIndex := some 0, rowcount := some 0, sqlstate := none,
-                                 lastSql := some (descOf q), lastParams := none }
+                                 lastSql := some (descOf q), lastParams := params }
       | none => { cur with result := none, fetchIndex := none, rowcount := none }
     ({ c with duck := r.1, cursors := c.cursors.set i cur' }, r.2)
+
+/-! ### what is sent to DuckDB for a seeded query (cursor.py: `transformed.args.get("seed")`) -/
+
+/-- the part of a transformed statement the seed logic looks at: is the top-level node a DESCRIBE wrapper, and the
+    seed `transforms.random` attached to the (inner) SELECT, if any -/
+structure Seeded where
+  isDescribe : Bool
+  selectSeed : Option Nat
+deriving DecidableEq, Repr
+
+inductive Sent | setseed (seed : Nat) | statement
+deriving DecidableEq, Repr
+
+/-- `transformed.args.get("seed")` reads the TOP-LEVEL node: a DESCRIBE wrapper has no seed of its own -/
+def topLevelSeed (p : Seeded) : Option Nat := if p.isDescribe then none else p.selectSeed
+
+/-- the SQL sent: `SELECT setseed(..); <sql>` only when the top-level statement carries a seed -/
+def sent (p : Seeded) : List Sent :=
+  match topLevelSeed p with
+  | some s => [.setseed s, .statement]
+  | none => [.statement]
 
 end Fs.Descr
